@@ -1,0 +1,41 @@
+//go:build verif
+
+package hjky
+
+// Contracts for the deductive checker in /verif (comment-only; compiled only under the verif tag).
+// Group elements G: abstract abelian group ("group"); field elements S: abstract ring ("ring").
+
+// A private zero-share message is valid only if it carries a share addressed to the recipient itself.
+//@ func (*Round1P2P).Validate
+//@   property C04
+//@   purefn
+//@   ensures result == nil ==> m != nil && m.ZeroShare != nil && m.ZeroShare.ID() == participant.SharingID()
+//@   ensures forall x V :: !culprit(result, x)
+
+//@ func (*Participant).SharingID
+//@   property C04
+//@   purefn
+//@   ensures result == p.ctx.HolderID()
+
+// sender id passed all of round 2's checks: both messages present and valid, the private share verifies
+// against the sender's broadcast verification vector, and that vector commits to zero (constant term = identity).
+//@ pure func zs(r1u V, id sharing.ID) V = res(r1u.Get(id), 0).ZeroShare
+//@ pure func vvOf(r1b V, id sharing.ID) V = res(r1b.Get(id), 0).VerificationVector
+//@ pure func r2Checks(p *Participant, r1b V, r1u V, id sharing.ID) bool = msgOK(p, r1b, id) && msgOK(p, r1u, id) && p.scheme.Verify(zs(r1u, id), vvOf(r1b, id)) == nil && res(vvOf(r1b, id).Value().Get(0, 0), 0) == gzero()
+//@ pure func oth(p *Participant, a Int) Int = seqat(p.ctx.OtherPartiesOrdered(), a, int)
+
+//@ func (*Participant).Round2
+//@   property C04, C06
+//@   bind G group, S ring, PrimeGroup groupS
+//@   nopanic explicit
+//@   requires p.state.share != nil && p.state.share.ID() == p.ctx.HolderID() && len(p.state.share.Value()) == nrows(p.scheme.lsss.MSP(), p.ctx.HolderID())
+//@   requires forall id sharing.ID :: wfVVin(vvOf(r1b, id))
+//@   requires p.scheme.lsss.MSP() != nil ==> wfM(p.scheme.lsss.MSP().Matrix())
+//@   ensures err == nil ==> forall a Int :: 0 <= a && a < seqlen(p.ctx.OtherPartiesOrdered()) ==> r2Checks(p, r1b, r1u, oth(p, a))
+//@   ensures err == nil ==> share != nil && share.ID() == p.ctx.HolderID()
+//@   ensures err == nil ==> p.round == old(p.round) + 1
+//@   loop range(p.ctx.OtherPartiesOrdered())
+//@     invariant forall a Int :: 0 <= a && a < seqlen(p.ctx.OtherPartiesOrdered()) ==> msgOK(p, r1b, oth(p, a)) && msgOK(p, r1u, oth(p, a))
+//@     invariant forall a Int :: 0 <= a && a < $i ==> r2Checks(p, r1b, r1u, oth(p, a))
+//@     invariant share != nil && share.ID() == p.ctx.HolderID() && len(share.Value()) == nrows(p.scheme.lsss.MSP(), p.ctx.HolderID())
+//@     invariant p.round == old(p.round) && p.round == 2
